@@ -284,37 +284,25 @@ def run(ctx):
     ctx.cov["legs"]["V-G+T+P"]["cases_by_leg_and_component"] = ncase
     ctx.cov["deviations_needed_to_explain_the_real_code"] = sorted(seen)
 
-    # ---- the pinned reproducers once more, under the statements without deviations (monitor in collect mode): does each
-    # deviation still reproduce on the tree under test?
+    # ---- the pinned reproducers: the monitor recorded which of them needed their deviation (statements alone do not explain the run)
     if not ctx.violations:
-        keep = (ctx.cov["traces_validated_against_impl"], ctx.cov["evaluations"])
-        ptr = os.path.join(ctx.work, "trace_pinned.ndjson")
-        pc = []
-        with open(ptr, "w") as o:
-            for ce, runs in read_cases(traces):
-                if ce.get("leg") == "P":
-                    evs = [ce] + runs + [{"k": "reset"}]
-                    pc.append((len(evs), json.dumps(ce["in"], sort_keys=True)))
-                    for e in evs:
-                        o.write(json.dumps(e) + "\n")
-        # validate_traces puts the longest cases first (stable): line numbers of the single chunk follow that order
-        order, nline = [], 0
-        for n, k in sorted(pc, key=lambda x: x[0], reverse=True):
-            order.append((nline + 1, nline + n, k))
-            nline += n
-        ctx.validate_traces("KbxTrace", "KbxTraceStrict", ptr, SPEC, name="V-pinned-strict", timeout=600, parallel=1)
         hit = set()
-        for p in glob.glob(os.path.join(ctx.work, "tlc*", "w*", "tlc.KbxTraceStrict.out")):
+        for p in glob.glob(os.path.join(ctx.work, "tlc*", "w*", "tlc.KbxTrace.out")):
             with open(p) as f:
-                for m in re.finditer(r'<<"VERIF-FOUND", "(.*)">>', f.read()):
-                    for line, _ in json.loads(json.loads('"' + m.group(1) + '"')):
-                        hit.update(k for lo, hi, k in order if lo <= line <= hi)
+                txt = f.read()
+            chunk = os.path.join(os.path.dirname(os.path.dirname(p)), "chunk%s.ndjson" % os.path.basename(os.path.dirname(p))[1:])
+            for m in re.finditer(r'<<"VERIF-DEVCASES", "(.*)">>', txt):
+                pairs = json.loads(json.loads('"' + m.group(1) + '"'))
+                if pairs:
+                    with open(chunk) as f:
+                        lines = f.read().splitlines()
+                    for line, dev in pairs:
+                        hit.add((dev, json.dumps(json.loads(lines[line - 1])["in"], sort_keys=True)))
         for n, c, what in PINNED:
-            if json.dumps(c["in"], sort_keys=True) in hit:
+            if (n, json.dumps(c["in"], sort_keys=True)) in hit:
                 ctx.note("deviation %s (switch '%s' of KbxProps/MCKbxDevs; reproduces on this tree): %s" % (n, n, what))
             else:
-                ctx.note("deviation %s did not reproduce on this tree with its pinned input: the switch can be removed from MCKbxDevs.AllDevs" % n)
-        ctx.cov["traces_validated_against_impl"], ctx.cov["evaluations"] = keep   # the strict re-validation is a report, not additional evidence
+                ctx.note("deviation %s was not needed to explain its pinned input on this tree: the switch can be removed from MCKbxDevs.AllDevs" % n)
     ctx.cov["runs_per_case"] = {"same_process": 2, "fresh_process": 1, "pinned_reproducers_same_process": 12}
     ctx.cov["exhaustive"] = (not q) and not ctx.violations
     ctx.cov["explanation"] = ("exhaustive = every input of the TLC small scope (thorough tier, Scope 2) was run on the real code; the quick tier replays "
